@@ -49,6 +49,13 @@ CLAIMED["C13"] = {
     "technique": "deterministic simulation: seeded pipeline histories around a fake back-end peer with a conservation ledger, RNG seam with adversarial legal draws",
 }
 
+CLAIMED["C05"] = {
+    "text": "Seeded search over sessions of save / load / dict-round-trip steps on a simulated disk shared by 1-3 clients: circuits and circuit lists (every built-in gate, custom gates with symbolic matrices also under wrappers, controlled/dagger/power/exponential nestings to depth 4, int/float/sympy-number/symbolic/indexed-symbol parameters, symbols named like sympy built-ins, empty circuits, idle qubits) are written through every handle kind (str, bytes, PathLike, caller-owned handle), overwritten by longer, shorter and other-kind values, and read back - also after saves that failed or crashed at a scheduled I/O event (open/write/close errors, torn writes, process crash, short reads). Oracle: acknowledged value must load and compare equal under an independent structural walk (width, op sequence, gate kind, wrapper nesting, control count, exponent, custom definition, qubit tuples, parameters), library equality, equal free symbols and equal unitary under random symbol assignments; after a failed save a load may fail or return old/new, never other data; injected errors must not be swallowed; caller-owned handles must stay open. Evidence over sampled sessions, not proof; the dictionary form itself is a pure function that is exercised, not decided, by simulation.",
+    "design_ref": "DESIGN.md §3 C05",
+    "note": "Trusted: SimFS as a stand-in for open()/file objects, the structural comparator, sympy.simplify for expression equality. Known findings (not alarms): one-ulp float loss (K5), plain+indexed symbol sharing a base name (K1). Real: circuits._serde, utils.ensure_open, gate classes and their equality, json, sympify.",
+    "technique": "deterministic simulation: seeded store histories (save/overwrite/load) on a fault-injecting simulated disk with crash points, ACK/UNKNOWN durability model and structural+semantic comparator",
+}
+
 PENDING = {pid: "applicable (DESIGN.md §3) but its check is not built yet at this commit; not claimed until it is" for pid in
            ["C01", "C04", "C05", "C11", "C13", "C14", "C15", "C17", "C20"] if pid not in CLAIMED}
 
